@@ -26,7 +26,9 @@ ASSUMPTIONS = [
 ]
 
 PROFILE = scenario.profile(maxD=3, extra_budget=(10, 60), cons_x0=("margin",), p_cons=0.45, max_iter_choices=(None,),
-                           tol_mesh_choices=(None,), c_classes=("inside", "on_bound", "outside", "hardbox"))
+                           tol_mesh_choices=(None,), c_classes=("inside", "on_bound", "outside", "hardbox"),
+                           # rarely used but supported: a user-supplied annealing schedule for the LCB
+                           extra_opts=(("search_acq_fcn", ({"__callable__": "lcb_schedule", "k": 0.5}, {"__callable__": "lcb_schedule", "k": 2.0}), 0.2),))
 N = {"quick": 160, "thorough": 3000}
 N_HEDGE = {"quick": 3000, "thorough": 100000}
 MASK_MAX = {"quick": 300, "thorough": 600}
@@ -65,6 +67,25 @@ def run_oracle(scn, tr):
         allx = np.vstack([a["xi"] for a in acqs if a["xi"] is not None and len(a["xi"])]) if any(len(a["xi"]) for a in acqs) else np.empty((0, scn["D"]))
         if allz.size == 0:
             continue
+        # the acquisition values themselves are re-derived from the independent GP prediction recorded at the seam
+        sched = scn["options"].get("search_acq_fcn")
+        for a in acqs:
+            if a["xi"] is None or not len(a["xi"]):
+                continue
+            tt = a["func_count"] + 1
+            if isinstance(sched, dict):
+                sb = sched["k"] * np.sqrt(0.2 * 2 * np.log(a["D"] * tt**2 * np.pi**2 / 0.6))
+            else:
+                sb = np.sqrt(0.2 * 2 * np.log(a["D"] * tt**2 * np.pi**2 / 0.6))
+            ref = (np.asarray(a["mu"], dtype=float) - sb * np.sqrt(np.asarray(a["s2"], dtype=float))).ravel()
+            zz = np.asarray(a["z"], dtype=float).ravel()
+            okz = np.isclose(zz, ref, rtol=1e-9, atol=1e-12) | (np.isnan(zz) & np.isnan(ref))
+            if not np.all(okz):
+                j = int(np.argmax(~okz))
+                v.append(viol("a:acquisition-value-not-lcb", f"{e['cls']}: ranked value {zz[j]!r} but mean - {sb:.6g}*sd = {ref[j]!r} "
+                              f"({'user schedule k=%s' % sched['k'] if isinstance(sched, dict) else 'default schedule'}, t={tt}, D={a['D']})",
+                              site="custom-schedule" if isinstance(sched, dict) else "default"))
+                break
         zmin = np.nanmin(allz) if np.any(~np.isnan(allz)) else np.nan
         zstar = e["z"]
         us = np.asarray(e["us"], dtype=float).ravel()
@@ -74,7 +95,14 @@ def run_oracle(scn, tr):
             idx = np.where(allz == zstar)[0]
             if idx.size and not any(np.array_equal(allx[j], us) for j in idx):
                 v.append(viol("a:proposal-not-the-minimising-candidate", f"{e['cls']}: proposal {us.tolist()} is not a candidate with z={zstar!r}"))
-        lo, hi = e["lb_search"].ravel(), e["ub_search"].ravel()
+        # the mesh-rounded box is recomputed here from the transformed hard bounds and the current search mesh
+        # (mesh nodes inside [lb, ub]); the box stored by the run is only reported, not trusted
+        h_ = e["search_mesh"]
+        lo = np.where(np.isfinite(e["lb"]), h_ * np.ceil(e["lb"] / h_ - 1e-9), -np.inf)
+        hi = np.where(np.isfinite(e["ub"]), h_ * np.floor(e["ub"] / h_ + 1e-9), np.inf)
+        if allx.size and np.any(np.abs(allx / h_ - np.round(allx / h_)) > 1e-6):
+            j = int(np.argmax(np.any(np.abs(allx / h_ - np.round(allx / h_)) > 1e-6, axis=1)))
+            v.append(viol("b:candidate-off-the-search-mesh", f"{e['cls']}: candidate {allx[j].tolist()} is not a node of the search mesh {h_}"))
         if allx.size and not (np.all(allx >= lo) and np.all(allx <= hi)):
             bad = allx[~np.all((allx >= lo) & (allx <= hi), axis=1)][0]
             v.append(viol("b:candidate-outside-search-box", f"{e['cls']}: candidate {bad.tolist()} outside [{lo.tolist()}, {hi.tolist()}]"))
